@@ -10,6 +10,12 @@ import (
 	"context"
 	"fmt"
 	"math/rand"
+
+	"google.golang.org/protobuf/types/known/durationpb"
+
+	"github.com/tochemey/goakt/v4/internal/address"
+	"github.com/tochemey/goakt/v4/internal/internalpb"
+	"github.com/tochemey/goakt/v4/internal/types"
 	"sort"
 	"strconv"
 	"sync"
@@ -68,9 +74,25 @@ func (a *SingletonActor) PostStop(ctx *actor.Context) error {
 	return nil
 }
 
-var singleGates = []string{"cluster.Members", "cluster.ActorExists", "cluster.PutActor", "cluster.GetActor"}
+var singleGates = []string{"cluster.Members", "cluster.ActorExists", "cluster.PutActor", "cluster.GetActor", "cluster.RemoveActor"}
 
-var singGateOfPC = map[string]string{"call": "call", "M": "M", "AE": "AE", "pre": "pre", "AP": "AP", "AG": "AG", "wait": "wait", "done": "done"}
+var singGateOfPC = map[string]string{"call": "call", "M": "M", "AE": "AE", "pre": "pre", "AP": "AP", "AG": "AG", "RG": "AG", "RR": "AR",
+	"wait": "wait", "done": "done"}
+
+// gate a model action passes
+var singGateOfAction = map[string]string{"call": "call", "M": "M", "Mfail": "M", "AE": "AE", "AEfail": "AE", "pre": "pre", "AP": "AP",
+	"AG": "AG", "AGfail": "AG", "RG": "AG", "RGfail": "AG", "RR": "AR"}
+
+// singletonProps is the wire record of the singleton as the departed node "D" published it.
+func (wd *world) singletonProps(name string) (*internalpb.Actor, string) {
+	addr := address.New(name, "sysD", "127.0.0.1", wd.dport)
+	return &internalpb.Actor{
+		Address: addr.String(),
+		Type:    types.Name(&SingletonActor{}),
+		Singleton: &internalpb.SingletonSpec{SpawnTimeout: durationpb.New(800 * time.Millisecond),
+			WaitInterval: durationpb.New(2 * time.Millisecond), MaxRetries: 2},
+	}, addr.HostPort()
+}
 
 func (wd *world) registerActorKinds() {
 	ctx := context.Background()
@@ -81,20 +103,50 @@ func (wd *world) registerActorKinds() {
 	}
 }
 
-func (wd *world) setViews(lead map[string]string) {
+func (wd *world) setViews(lead map[string]string, solo []string) {
 	for _, n := range wd.nodes {
 		l := lead[n.name]
 		if l == "" {
 			l = wd.nodes[0].name
 		}
-		n.client.setLeader(l)
+		isSolo := false
+		for _, x := range solo {
+			isSolo = isSolo || x == n.name
+		}
+		n.client.log = true
+		n.client.setView(l, isSolo && l == "-")
 	}
 }
 
-func (wd *world) startSingletonThreads(s *sched.Sched, name string, orgs map[string]string) {
+// seedRecord publishes the departed node's record of the singleton (relocation scenarios).
+func (wd *world) seedRecord(name, rec0 string) {
+	if rec0 != "D" {
+		return
+	}
+	props, _ := wd.singletonProps(name)
+	if err := wd.nodes[0].cl.PutActor(context.Background(), props); err != nil {
+		fatal("seed record", err)
+	}
+}
+
+func (wd *world) startSingletonThreads(s *sched.Sched, name string, orgs, kinds map[string]string) {
 	ctx := context.Background()
 	for _, t := range sortedKeys(orgs) {
 		t, n := t, wd.byName[orgs[t]]
+		if kinds[t] == "reloc" {
+			wd.goThread(s, t, func() {
+				props, departed := wd.singletonProps(name)
+				ok, info := 1, ""
+				if err := actor.VerifRecreateSingleton(ctx, n.sys, props, departed); err != nil {
+					ok, info = 0, err.Error()
+				}
+				if len(info) > 120 {
+					info = info[:120]
+				}
+				wd.w.Emit(map[string]any{"ev": "ret", "t": t, "n": n.name, "ok": ok, "info": info, "id": name})
+			})
+			continue
+		}
 		wd.goThread(s, t, func() {
 			ok, info := 0, ""
 			pid, err := n.sys.SpawnSingleton(ctx, name, &SingletonActor{}, actor.WithSingletonSpawnTimeout(800*time.Millisecond),
@@ -207,11 +259,18 @@ func (wd *world) stepSingleton(r *singRun, x step) (gate, at string, err error) 
 			gate, at = wd.where(p, true)
 			return gate, at, nil
 		}
-	case "AE", "pre", "AP":
+	case "RG", "RGfail", "RR", "Mfail":
+		p, e := s.Step(t)
+		if e != nil {
+			return "", "", e
+		}
+		gate, at = wd.where(p, true)
+		return gate, at, nil
+	case "AE", "pre", "AP", "AEfail":
 		if f == "" {
 			return "", "", fmt.Errorf("no flight goroutine for %s", t)
 		}
-		if x.A == "AP" || (x.A == "AE" && x.PC != "pre") {
+		if x.A == "AP" || x.A == "AEfail" || (x.A == "AE" && x.PC != "pre") {
 			// the flight ends with this step: its goroutine runs to completion, the caller wakes up
 			if e := s.Release(f); e != nil {
 				return "", "", e
@@ -230,7 +289,7 @@ func (wd *world) stepSingleton(r *singRun, x step) (gate, at string, err error) 
 		}
 		gate, at = wd.where(p, true)
 		return gate, at, nil
-	case "AG":
+	case "AG", "AGfail":
 		if e := s.Release(t); e != nil {
 			return "", "", e
 		}
@@ -254,12 +313,13 @@ func singleReplay(wd *world, bs []behaviour, st *stats) {
 	wd.registerActorKinds()
 	for bi, b := range bs {
 		name := "s" + strconv.Itoa(bi)
-		wd.w.Raw(map[string]any{"ev": "New", "id": name, "tag": b.Tag, "orgs": b.Orgs, "lead": b.Lead})
-		wd.setViews(b.Lead)
+		wd.w.Raw(map[string]any{"ev": "New", "id": name, "tag": b.Tag, "orgs": b.Orgs, "lead": b.Lead, "kinds": b.Kinds})
+		wd.setViews(b.Lead, b.Solo)
+		wd.seedRecord(name, b.Rec0)
 		s := wd.newSched(singleGates...)
 		s.AdoptAt("cluster.ActorExists", "f")
 		r := &singRun{s: s, flight: map[string]string{}}
-		wd.startSingletonThreads(s, name, b.Orgs)
+		wd.startSingletonThreads(s, name, b.Orgs, b.Kinds)
 		drift := ""
 		for si, x := range b.Steps {
 			if x.T == "env" {
@@ -270,15 +330,26 @@ func singleReplay(wd *world, bs []behaviour, st *stats) {
 			}
 			// the thread (or its flight goroutine) must be parked at the gate the action passes
 			who := x.T
-			if x.A == "AE" || x.A == "pre" || x.A == "AP" {
+			if x.A == "AE" || x.A == "pre" || x.A == "AP" || x.A == "AEfail" {
 				who = r.flight[x.T]
 			}
 			if x.A != "wake" {
 				pend, parked := s.Pending(who)
 				gate, _ := wd.where(pend, parked)
-				if who == "" || !parked || pend.Done || gate != singGateOfPC[x.A] {
+				if who == "" || !parked || pend.Done || gate != singGateOfAction[x.A] {
 					drift = fmt.Sprintf("%s:at=%s", x.A, gate)
 					break
+				}
+				// injected read-quorum failure of the read the thread is parked in front of
+				if n, ok := wd.byObj[pend.Obj]; ok {
+					switch x.A {
+					case "RGfail", "AEfail", "AGfail":
+						wd.st.mu.Lock()
+						wd.st.fail[n.name+"/getq"]++
+						wd.st.mu.Unlock()
+					case "Mfail":
+						n.client.failNext()
+					}
 				}
 			}
 			gate, at, err := wd.stepSingleton(r, x)
@@ -341,11 +412,33 @@ func singleExplore(wd *world, runs int, seed int64, st *stats) {
 		for _, n := range wd.nodes {
 			lead[n.name] = l0
 		}
-		wd.w.Raw(map[string]any{"ev": "New", "id": name, "tag": "explore", "orgs": orgs, "lead": lead})
-		wd.setViews(lead)
+		// one run in three is a relocation scenario (the record of the departed node is there, some threads are
+		// relocation items); one in three has a joining node whose view flags no coordinator (half of them: view = [self])
+		kinds := map[string]string{}
+		rec0 := "-"
+		var solo []string
+		if rng.Intn(3) == 0 {
+			rec0 = "D"
+			for t := range orgs {
+				if rng.Intn(3) != 0 {
+					kinds[t] = "reloc"
+				}
+			}
+		}
+		if rng.Intn(3) == 0 {
+			j := wd.nodes[rng.Intn(len(wd.nodes))].name
+			lead[j] = "-"
+			if rng.Intn(2) == 0 {
+				solo = []string{j}
+			}
+		}
+		readFaults := rng.Intn(2)
+		wd.w.Raw(map[string]any{"ev": "New", "id": name, "tag": "explore", "orgs": orgs, "lead": lead, "kinds": kinds})
+		wd.setViews(lead, solo)
+		wd.seedRecord(name, rec0)
 		s := wd.newSched(singleGates...)
 		s.AdoptAt("cluster.ActorExists", "f")
-		wd.startSingletonThreads(s, name, orgs)
+		wd.startSingletonThreads(s, name, orgs, kinds)
 		names := sortedKeys(orgs)
 		changes := rng.Intn(4)
 		newLead := wd.nodes[rng.Intn(len(wd.nodes))].name
@@ -395,6 +488,20 @@ func singleExplore(wd *world, runs int, seed int64, st *stats) {
 			}
 			idle = 0
 			best := cands[rng.Intn(len(cands))]
+			if pd, _ := s.Pending(best); readFaults > 0 && rng.Intn(6) == 0 {
+				if n, ok := wd.byObj[pd.Obj]; ok {
+					switch pd.Point {
+					case "cluster.GetActor", "cluster.ActorExists":
+						readFaults--
+						wd.st.mu.Lock()
+						wd.st.fail[n.name+"/getq"]++
+						wd.st.mu.Unlock()
+					case "cluster.Members":
+						readFaults--
+						n.client.failNext()
+					}
+				}
+			}
 			if err := s.Release(best); err != nil {
 				continue
 			}
